@@ -410,7 +410,7 @@ impl Engine for BufEngine {
         "C19"
     }
     fn budget(&self) -> (u64, u64) {
-        (100_000, 180)
+        (600_000, 180)
     }
 
     fn generate(&self, seed: u64, _tier: Tier) -> Case<BufCfg, BufOp> {
